@@ -70,6 +70,8 @@ pub struct RunLog {
 	pub running_enabled: Vec<bool>,
 	pub deadlock: bool,
 	pub error: Option<String>,
+	/// (thread chosen, kind of point it was parked at) per decision
+	pub trace: Vec<(usize, String)>,
 }
 
 impl Sched {
@@ -134,6 +136,7 @@ impl Sched {
 			running_enabled: vec![],
 			deadlock: false,
 			error: None,
+			trace: vec![],
 		};
 		let mut preemptions = 0usize;
 		loop {
@@ -185,6 +188,7 @@ impl Sched {
 			log.choices.push(c);
 			log.enabled.push(enabled.clone());
 			let t = enabled[c];
+			log.trace.push((t, format!("{:?}", st.threads[t])));
 			st.last = Some(t);
 			st.running = Some(t);
 			self.cv.notify_all();
